@@ -3,6 +3,9 @@
 // the byte-swapping path), reached through h_ser_api.h; every op names its configuration.
 //
 // ops   enc cfg ty val | dec cfg ty hex | rt cfg ty val resthex | truncall cfg ty val | seq cfg ty val ...
+//       rtd cfg ty val destval resthex | decd cfg ty destval hex : as rt / dec, but the object read into
+//       already holds `destval` (a second random value of the type: reused strings, containers with
+//       more / fewer / other elements); Read's result must not depend on it
 // cases value (enc + rt + truncall of one value of one type), boundary (the empty / zero value),
 //       seq (2-5 values of different types back to back), dec-elems (unsorted / duplicate element
 //       streams read into associative containers), dec-count (top-level count changed by a small delta)
@@ -103,6 +106,11 @@ int main(int argc, char **argv) {
         size_t tn = rng.below(4) == 0 ? 0 : rng.below(12);
         for (size_t i = 0; i < tn; ++i) tail.push_back(static_cast<char>(rng.chance(1, 3) ? 0 : rng.next()));
         c.ops.push_back("rt " + pre + " " + vh::hex(tail));
+        // the same read into reused objects: a larger random value, a small one, the value itself
+        for (int d = 0; d < 3; ++d) {
+          std::string dest = d == 2 ? val : b->gen(ti.desc, rng.next(), d == 0 ? 3 : 1);
+          if (!dest.empty()) c.ops.push_back("rtd " + pre + " " + dest + " " + vh::hex(tail));
+        }
         if (val.size() < 2400) c.ops.push_back("truncall " + pre);
         R.run_case(c);
       }
@@ -134,7 +142,9 @@ int main(int argc, char **argv) {
         for (size_t k = 0; k < ndec; ++k) {
           Case c;
           c.kind = "dec-elems " + ti.desc;
-          c.ops.push_back(std::string("dec ") + b->cfg + " " + ti.desc + " " + vh::hex(b->mutant(ti.desc, rng.next(), 0, 0)));
+          std::string hx = vh::hex(b->mutant(ti.desc, rng.next(), 0, 0));
+          c.ops.push_back(std::string("dec ") + b->cfg + " " + ti.desc + " " + hx);
+          c.ops.push_back(std::string("decd ") + b->cfg + " " + ti.desc + " " + b->gen(ti.desc, rng.next(), 2) + " " + hx);
           R.run_case(c);
         }
       }
@@ -143,7 +153,9 @@ int main(int argc, char **argv) {
           Case c;
           c.kind = "dec-count " + ti.desc;
           int delta = static_cast<int>(rng.below(7)) - 3;
-          c.ops.push_back(std::string("dec ") + b->cfg + " " + ti.desc + " " + vh::hex(b->mutant(ti.desc, rng.next(), 1, delta)));
+          std::string hx = vh::hex(b->mutant(ti.desc, rng.next(), 1, delta));
+          c.ops.push_back(std::string("dec ") + b->cfg + " " + ti.desc + " " + hx);
+          c.ops.push_back(std::string("decd ") + b->cfg + " " + ti.desc + " " + b->gen(ti.desc, rng.next(), 2) + " " + hx);
           R.run_case(c);
         }
       }
